@@ -73,12 +73,25 @@ EXPLANATION = (
     "the extractor and is NOT decided.")
 
 
+def levels_replay_cb(job, key, label, rec):
+    """grid size and level cap of the SAT counterexample are given to the real GMGPolar::chooseNumberOfLevels"""
+    import vlib
+    v = vlib.last_values(rec)
+    try:
+        nr, nt, cap = int(v["finestGrid_nr"]), int(v["finestGrid_ntheta"]), int(v["max_levels_"])
+    except (KeyError, ValueError):
+        return None
+    if nr * nt > 4000000:
+        return {"status": "not-attempted", "detail": "counterexample grid %d x %d too large to allocate natively" % (nr, nt)}
+    return vlib.native_driver("replay_levels", [nr, nt, cap])
+
+
 def run(tier, seed, work):
     import vlib
     rep = vlib.Report("C18", tier, seed)
     jobs = build_jobs(tier, seed)
     vlib.run_jobs(jobs, work)
-    rep.absorb(jobs)
+    rep.absorb(jobs, replay_cb=levels_replay_cb)
     rep.extraction = {"rules_fired": jobs[0].rules.summary(), "body_sha256_16": jobs[0].hashes,
                       "dropped": ["unused local linear_complexity_levels (std::log / std::ceil)"]}
     rep.trusted = ["CBMC 6.11 SAT", "32-bit int", "coarseningGrid halves as (nr+1)/2, ntheta/2 (src/PolarGrid/polargrid.cpp)"]
